@@ -278,10 +278,10 @@ pub fn prop() -> Prop {
         ],
         subs: vec![
             Sub { name: "targeted", kind: Kind::Exhaustive(targeted) },
-            Sub { name: "random-token-mutants", kind: Kind::Random { f: random_token_mutants, quick: 60_000, thorough: 4_000_000, len: 600 } },
-            Sub { name: "random-char-mutants", kind: Kind::Random { f: random_char_mutants, quick: 40_000, thorough: 2_000_000, len: 600 } },
-            Sub { name: "random-illtyped", kind: Kind::Random { f: random_illtyped, quick: 30_000, thorough: 1_500_000, len: 500 } },
-            Sub { name: "random-soup", kind: Kind::Random { f: random_soup, quick: 20_000, thorough: 1_000_000, len: 64 } },
+            Sub { name: "random-token-mutants", kind: Kind::Random { f: random_token_mutants, quick: 240_000, thorough: 4_800_000, len: 600 } },
+            Sub { name: "random-char-mutants", kind: Kind::Random { f: random_char_mutants, quick: 160_000, thorough: 3_200_000, len: 600 } },
+            Sub { name: "random-illtyped", kind: Kind::Random { f: random_illtyped, quick: 120_000, thorough: 2_400_000, len: 500 } },
+            Sub { name: "random-soup", kind: Kind::Random { f: random_soup, quick: 80_000, thorough: 1_600_000, len: 64 } },
         ],
         direct: Some(direct),
         selftest: Some(crate::rfc::selftest),
